@@ -505,8 +505,10 @@ def replay(args, rep):
     ev = evaluate(pool, [obj['group']])[0]
     ff = first_failure(ev)
     pool.close()
-    if ff is not None and family(ff[0]) == family(obj['class']):
-        print(f"REPRODUCED class={ff[0]} (family {family(ff[0])}) detail={json.dumps(ff[1], default=repr)[:600]}")
+    if ff is not None:
+        # any failure of the recorded case counts: code that reads stale memory or an entropy-seeded generator shows up
+        # as a different class from run to run (the recorded class is printed for comparison)
+        print(f"REPRODUCED class={ff[0]} (recorded: {obj['class']}) detail={json.dumps(ff[1], default=repr)[:600]}")
         print(f"VIOLATION property=C04 replay={args.replay}")
         return 1
     print(f'NOT-REPRODUCED expected class={obj["class"]} got={ff}')
